@@ -7,6 +7,7 @@ import (
 	"os"
 	"path/filepath"
 	"sort"
+	"strings"
 	"time"
 )
 
@@ -67,7 +68,7 @@ func main() {
 				var rs []VariantResult
 				extra, rs = runSelftests(id, *repo, verifDir())
 				for _, r := range rs {
-					fmt.Printf("selftest %s %-22s %s %v\n", id, r.Outcome, r.Name, r.Fired)
+					fmt.Printf("selftest %s %-22s %s %v %s\n", id, r.Outcome, r.Name, r.Fired, detailIfBad(r))
 				}
 			}
 			r := runProperty(P, id, *tier, verifDir(), round2(load), extra)
@@ -88,24 +89,26 @@ func main() {
 		old := fs.String("old", "", "try: old text")
 		nw := fs.String("new", "", "try: new text")
 		fs.Parse(os.Args[2:])
-		var v Variant
+		var todo []Variant
 		if os.Args[1] == "try" {
-			v = Variant{Name: "adhoc", File: *file, Old: *old, New: *nw}
+			todo = []Variant{{Name: "adhoc", File: *file, Old: *old, New: *nw}}
 		} else {
 			vs, err := loadVariants(verifDir(), *prop)
 			if err != nil {
 				fmt.Fprintln(os.Stderr, err)
 				os.Exit(2)
 			}
-			found := false
-			for _, x := range vs {
-				if x.Name == *name {
-					v, found = x, true
+			for _, n := range strings.Split(*name, ",") {
+				found := false
+				for _, x := range vs {
+					if x.Name == n {
+						todo, found = append(todo, x), true
+					}
 				}
-			}
-			if !found {
-				fmt.Fprintln(os.Stderr, "no such variant")
-				os.Exit(2)
+				if !found {
+					fmt.Fprintln(os.Stderr, "no such variant", n)
+					os.Exit(2)
+				}
 			}
 		}
 		ids := []string{*prop}
@@ -116,10 +119,12 @@ func main() {
 			}
 			sort.Strings(ids)
 		}
-		for _, id := range ids {
-			r := runVariantHere(*repo, verifDir(), id, v)
-			b, _ := json.Marshal(r)
-			fmt.Println(string(b))
+		for _, v := range todo {
+			for _, id := range ids {
+				r := runVariantHere(*repo, verifDir(), id, v)
+				b, _ := json.Marshal(r)
+				fmt.Println(string(b))
+			}
 		}
 	case "explain":
 		if len(os.Args) < 3 {
@@ -177,4 +182,12 @@ func dumpEvidence(path string) {
 	for _, o := range ev.Coverage.Samples {
 		fmt.Printf("  %-10s %-8s %-60s %-45s %s\n", o.Status, o.Rule, o.Key, o.Site, o.Detail)
 	}
+}
+
+func detailIfBad(r VariantResult) string {
+	switch r.Outcome {
+	case "caught", "silent":
+		return ""
+	}
+	return r.Detail
 }
